@@ -301,7 +301,19 @@ def schema_st(draw, en):
         if feat in en and not any(repr(c["key"]) == repr("f_" + feat[:4]) for c in columns):
             col = draw(column_st(en, "f_" + feat[:4]))
             col["dtype"] = tag
-            col["checks"] = _fix_ge_le([draw(check_st(dclass(tag), en)) for _ in range(draw(st.integers(2, 3)))])
+            col["checks"] = [draw(check_st(dclass(tag), en)) for _ in range(draw(st.integers(2, 3)))]
+            if feat == "dup-check-names":
+                # make sure two checks of one kind meet: redraw until the name repeats, else repeat the first check
+                first = col["checks"][0]
+                twin = None
+                for _ in range(6):
+                    c = draw(check_st(dclass(tag), en))
+                    if c["name"] == first["name"]:
+                        twin = c
+                        break
+                col["checks"].insert(1, twin or {"name": first["name"], "args": dict(first["args"]),
+                                                 "opts": draw(opts_st())})
+            col["checks"] = _fix_ge_le(col["checks"])
             if "dup-check-names" not in en:
                 seen, uniq = set(), []
                 for k in col["checks"]:
